@@ -338,7 +338,7 @@ func checkC06(e *Engine, r *Report) {
 	n += r.WhoMayWrite("R3", c.fJournal, "Allocator.journal", set(FnName(c.startJournal), FnName(c.commitJournal), FnName(c.revertJournal)), c.fns)
 	n += r.WhoMayWrite("R3", c.fReverts, "journal.reverts", set(FnName(c.startJournal), FnName(c.jAssign), FnName(c.jDelete)), c.fns)
 	n += r.WhoMayWrite("R3", c.fUpdates, "journal.updates", set(FnName(c.startJournal), FnName(c.jAssign), FnName(c.commitJournal)), c.fns)
-	r.MinInstances("R3 writers (libmem state)", n, 24)
+	r.MinInstances("R3 writers (libmem state)", n, 12)
 
 	c.checkJournaling(r)
 	// cleanupUnusedZones deletes only empty zones
@@ -629,7 +629,7 @@ func (c *lmCtx) checkInvalidate(r *Report) {
 				e.Pos(fn.Pos()), fn, witness == nil, w, true)
 		}
 	}
-	r.MinInstances("R1 invalidate (exported mutators)", n, 5)
+	r.MinInstances("R1 invalidate (exported mutators)", n, 3)
 }
 
 func describeCall(e *Engine, in ssa.Instruction) string {
